@@ -106,7 +106,8 @@ fn oracle(which: &str, d: &[u8], r: &Cow<str>, expect: &str, case: &str, obs: &m
     let plain = t.iter().all(|b| b.is_ascii() && *b != b'\\');
     match r {
         Cow::Borrowed(s) => {
-            if !(s.as_ptr() == d.as_ptr() && s.len() == t.len()) {
+            // (an EMPTY borrowed result may point anywhere: pointer identity means nothing for zero bytes)
+            if !(s.len() == t.len() && (s.is_empty() || s.as_ptr() == d.as_ptr())) {
                 obs.violation(&format!("{}-borrowed-not-input-prefix", which), case, "");
             }
             obs.count(&format!("{}:borrowed", which));
